@@ -4,6 +4,7 @@
 -/
 import J2M.Proofs.InhEq
 import J2M.Proofs.InhDetect
+import J2M.Proofs.HashInj
 namespace J2M
 
 /-- the type built when an incoming field differs from the existing one -/
@@ -122,6 +123,118 @@ theorem FInv.set {F : Fields} {name t} (h : FInv P F) (ht : P t) : FInv P (F.set
   · cases hk; exact ht
   · exact h.2 k t' hk
 
+/-! ### "optional-like" types -/
+
+/-- a `DOptional`, or a `DUnion` with a `DOptional` member: the field types that `optimize_type` rewrites to a
+    `DOptional` (`Union[Optional[str], int]` is `Optional[Union[str, int]]`) -/
+def Ty.optLike (t : Ty) : Bool := t.unionMembers.any Ty.isOpt
+
+theorem Ty.optLike_of_isOpt {t : Ty} (h : t.isOpt = true) : t.optLike = true := by
+  cases t <;> simp [Ty.isOpt] at h
+  simp [Ty.optLike, Ty.unionMembers, Ty.isOpt]
+
+@[simp] theorem Ty.optLike_opt {t : Ty} : (Ty.opt t).optLike = true := Ty.optLike_of_isOpt rfl
+
+theorem Ty.isOpt_false_of_optLike {t : Ty} (h : t.optLike = false) : t.isOpt = false := by
+  cases ho : t.isOpt with
+  | false => rfl
+  | true => rw [Ty.optLike_of_isOpt ho] at h; cases h
+
+theorem Ty.optLike_iff {t : Ty} : t.optLike = true ↔ ∃ m ∈ t.unionMembers, m.isOpt = true := by
+  simp [Ty.optLike]
+
+theorem Ty.optLike_union {ts : List Ty} : (Ty.union ts).optLike = true ↔ ∃ m ∈ ts, m.isOpt = true := by
+  simp [Ty.optLike, Ty.unionMembers]
+
+theorem Ty.optLike_eq_isOpt {t : Ty} (h : t.isUnion = false) : t.optLike = t.isOpt := by
+  cases t <;> first | rfl | simp [Ty.isUnion] at h
+
+theorem isOpt_of_hashStr_eq {a b : Ty} (h : hashStr a = hashStr b) (ha : a.isOpt = true) : b.isOpt = true := by
+  have hk := HashInj.kind_eq (a := a) (b := b) (r₁ := []) (r₂ := []) (by rw [h])
+  cases a <;> simp [Ty.isOpt] at ha
+  cases b <;> simp [HashInj.kind] at hk
+  rfl
+
+theorem mem_flattenUnion_of_mem {ts : List Ty} {m : Ty} (hm : m ∈ ts) (hu : m.isUnion = false) :
+    m ∈ flattenUnion ts := by
+  induction ts with
+  | nil => cases hm
+  | cons t ts ih =>
+    rcases List.mem_cons.1 hm with e | hm
+    · subst e
+      cases m <;> first | (simp [Ty.isUnion] at hu; done) | simp [flattenUnion]
+    · have := ih hm
+      cases t <;> simp [flattenUnion, this]
+
+/-- `DUnion.__init__` keeps a `DOptional` member when an argument is one -/
+theorem mkUnionMembers_opt {c : LitCfg} {ts : List Ty} {t : Ty} (ht : t ∈ flattenUnion ts)
+    (ho : t.isOpt = true) : ∃ u ∈ mkUnionMembers c ts, u.isOpt = true := by
+  have inv := unionState_inv ts
+  have hl : t.isLit = false := by cases t <;> first | rfl | simp [Ty.isOpt] at ho
+  have hh := inv.nonlit t (by simpa using ht) hl
+  rw [inv.hashes_eq, List.mem_map] at hh
+  obtain ⟨u, hu, he⟩ := hh
+  exact ⟨u, mem_mkUnionMembers.2 (Or.inl hu), isOpt_of_hashStr_eq he.symm ho⟩
+
+theorem optLike_collapse {us : List Ty} (h : ∃ u ∈ us, u.isOpt = true) : (collapse us).optLike = true := by
+  unfold collapse
+  split
+  · obtain ⟨u, hu, ho⟩ := h
+    simp at hu; subst hu; exact Ty.optLike_of_isOpt ho
+  · exact Ty.optLike_union.2 h
+
+theorem optLike_mergeNew {c : LitCfg} {a b : Ty} (h : a.optLike = true ∨ b.optLike = true) :
+    (mergeNew c a b).optLike = true := by
+  have : ∃ m ∈ a.unionMembers ++ b.unionMembers, m.isOpt = true := by
+    rcases h with h | h
+    · obtain ⟨m, hm, ho⟩ := Ty.optLike_iff.1 h; exact ⟨m, List.mem_append_left _ hm, ho⟩
+    · obtain ⟨m, hm, ho⟩ := Ty.optLike_iff.1 h; exact ⟨m, List.mem_append_right _ hm, ho⟩
+  obtain ⟨m, hm, ho⟩ := this
+  have hnu : m.isUnion = false := by cases m <;> first | rfl | simp [Ty.isOpt] at ho
+  exact optLike_collapse (mkUnionMembers_opt (mem_flattenUnion_of_mem hm hnu) ho)
+
+/-- Python `==` relates only types of the same top-level class, and the members of equal `DUnion`s pairwise -/
+theorem pyEq_optLike {so ms g} : ∀ (fuel : Nat) (a b : Ty), pyEq so ms g fuel a b = some true →
+    a.isOpt = b.isOpt ∧ a.optLike = b.optLike := by
+  intro fuel a b h
+  cases fuel with
+  | zero => simp [pyEq] at h
+  | succ fuel =>
+    have key : ∀ (fuel' : Nat) (x y : Ty), pyEq so ms g fuel' x y = some true → x.isOpt = y.isOpt := by
+      intro fuel' x y hxy
+      cases fuel' with
+      | zero => simp [pyEq] at hxy
+      | succ n => cases x <;> cases y <;> first | rfl | (simp [pyEq] at hxy; done)
+    refine ⟨key _ a b h, ?_⟩
+    cases a <;> cases b <;> try (first | rfl | (simp [pyEq] at h; done))
+    case union.union xs ys =>
+      rw [pyEq_union_eq] at h
+      obtain ⟨hlen, hall⟩ := eqListF_true h
+      have hiff : (Ty.union xs).optLike = true ↔ (Ty.union ys).optLike = true := by
+        rw [Ty.optLike_union, Ty.optLike_union]
+        constructor
+        · rintro ⟨m, hm, ho⟩
+          obtain ⟨y, hy⟩ := exists_zip_left (sortedMembers so ms xs) (sortedMembers so ms ys) (by omega) m
+            (mem_sortByKey.2 hm)
+          have := key _ _ _ (hall _ hy)
+          exact ⟨y, mem_sortByKey.1 (List.of_mem_zip hy).2, by rw [← this]; exact ho⟩
+        · rintro ⟨m, hm, ho⟩
+          obtain ⟨x, hx⟩ := exists_zip_right (sortedMembers so ms xs) (sortedMembers so ms ys) (by omega) m
+            (mem_sortByKey.2 hm)
+          have := key _ _ _ (hall _ hx)
+          exact ⟨x, mem_sortByKey.1 (List.of_mem_zip hx).1, by rw [this]; exact ho⟩
+      cases h1 : (Ty.union xs).optLike <;> cases h2 : (Ty.union ys).optLike <;> simp_all
+
+theorem EqEnv.eq_optLike {e : EqEnv} {a b : Ty} (h : e.eq a b = .ok true) :
+    a.isOpt = b.isOpt ∧ a.optLike = b.optLike := by
+  unfold EqEnv.eq at h
+  split at h
+  · rename_i r hr
+    simp only [pure, Except.pure, Except.ok.injEq] at h
+    subst h
+    exact pyEq_optLike _ _ _ hr
+  · cases h
+
 /-- one incoming `(name, field)` -/
 theorem mergeOne_spec (cl : MergeClosed K P) (hs : HashSoundOn ov acc g (Ty.Good K))
     {e : EqEnv} (he : EqSoundOn ov acc g e (Ty.Good K)) {c : LitCfg} {first : Bool}
@@ -131,9 +244,10 @@ theorem mergeOne_spec (cl : MergeClosed K P) (hs : HashSoundOn ov acc g (Ty.Good
     (∀ k, k ≠ name → Fields.get? F' k = Fields.get? F k) ∧
     ∃ t', Fields.get? F' name = some t' ∧
       (∀ orig, Fields.get? F name = some orig →
-        Covers ov acc g orig t' ∧ (orig.isOpt = true → t'.isOpt = true)) ∧
+        Covers ov acc g orig t' ∧ (orig.isOpt = true → t'.isOpt = true) ∧
+        (orig.optLike = true → t'.optLike = true)) ∧
       (Fields.get? F name = none → first = false → t'.isOpt = true) ∧
-      (field.isOpt = false → Covers ov acc g field t') := by
+      Covers ov acc g field t' ∧ (field.optLike = true → t'.optLike = true) := by
   cases hg : Fields.get? F name with
   | none =>
     rw [mergeOne_none hg, Except.pure_eq_ok] at h
@@ -143,7 +257,7 @@ theorem mergeOne_spec (cl : MergeClosed K P) (hs : HashSoundOn ov acc g (Ty.Good
       · exact hf
       · exact (cl.opt _).1 hf
     refine ⟨inv.set hP, ?_, (if first || field.isOpt then field else .opt field),
-      by simp [Fields.get?_set], ?_, ?_, ?_⟩
+      by simp [Fields.get?_set], ?_, ?_, ?_, ?_⟩
     · intro k hk
       have : ¬ name = k := fun e => hk e.symm
       simp [Fields.get?_set, this]
@@ -152,10 +266,13 @@ theorem mergeOne_spec (cl : MergeClosed K P) (hs : HashSoundOn ov acc g (Ty.Good
       subst hfirst
       cases hfo : field.isOpt <;> simp [Ty.isOpt]
       exact hfo
-    · intro _
-      split
+    · split
       · exact Covers.refl
       · exact Covers.toOpt
+    · intro hol
+      split
+      · exact hol
+      · exact Ty.optLike_opt
   | some orig =>
     have hPo : P orig := inv.2 _ _ hg
     cases hio : orig.isOpt with
@@ -165,62 +282,113 @@ theorem mergeOne_spec (cl : MergeClosed K P) (hs : HashSoundOn ov acc g (Ty.Good
       have hPoi : P oi := (cl.opt _).2 hPo
       rw [mergeOne_some_opt hg, Except.bind_eq_ok] at h
       obtain ⟨b1, hb1, h⟩ := h
-      rw [Except.bind_eq_ok] at h
-      obtain ⟨b2, hb2, h⟩ := h
+      have keep : F' = F → FInv P F' ∧
+          (∀ k, k ≠ name → Fields.get? F' k = Fields.get? F k) ∧
+          ∃ t', Fields.get? F' name = some t' ∧
+            (∀ orig, some (Ty.opt oi) = some orig →
+              Covers ov acc g orig t' ∧ (orig.isOpt = true → t'.isOpt = true) ∧
+              (orig.optLike = true → t'.optLike = true)) ∧
+            (some (Ty.opt oi) = none → first = false → t'.isOpt = true) ∧
+            (Covers ov acc g field (.opt oi) → Covers ov acc g field t') ∧
+            (field.optLike = true → t'.optLike = true) := by
+        intro e; subst e
+        refine ⟨inv, fun _ _ => rfl, _, hg, ?_, by simp, fun h => h, fun _ => Ty.optLike_opt⟩
+        intro orig' ho; cases ho; exact ⟨Covers.refl, fun _ => rfl, fun _ => Ty.optLike_opt⟩
       split at h
       · rename_i hb
-        rw [Except.pure_eq_ok] at h; subst h
-        refine ⟨inv, fun _ _ => rfl, _, hg, ?_, by simp, ?_⟩
-        · intro orig' ho; cases ho; exact ⟨Covers.refl, fun _ => rfl⟩
-        · intro _ v hv
-          have hb' : b1 = true ∨ b2 = true := by simpa using hb
-          rcases hb' with hb | hb
-          · subst hb
-            exact (he _ _ (cl.good _ hPo) (cl.good _ hf) hb1 v).2 hv
-          · subst hb
-            exact InhX.optSome ((he _ _ (cl.good _ hPoi) (cl.good _ hf) hb2 v).2 hv)
-      · rw [Except.pure_eq_ok] at h; subst h
-        have hPn : P (mergeNew c field oi) := closed_mergeNew cl hf hPoi
-        obtain ⟨cv1, cv2⟩ := covers_mergeNew (c := c) cl hs hf hPoi
-        refine ⟨inv.set ((cl.opt _).1 hPn), ?_, .opt (mergeNew c field oi), by simp [Fields.get?_set], ?_,
-          by simp, ?_⟩
-        · intro k hk
-          have : ¬ name = k := fun e => hk e.symm
-          simp [Fields.get?_set, this]
-        · intro orig' ho; cases ho
-          refine ⟨?_, fun _ => rfl⟩
+        rw [Except.pure_eq_ok] at h
+        obtain ⟨i1, i2, t', i3, i4, i5, i6, i7⟩ := keep h.symm
+        refine ⟨i1, i2, t', i3, i4, i5, i6 ?_, i7⟩
+        intro v hv
+        subst hb
+        exact (he _ _ (cl.good _ hPo) (cl.good _ hf) hb1 v).2 hv
+      · rw [Except.bind_eq_ok] at h
+        obtain ⟨b2, hb2, h⟩ := h
+        split at h
+        · rename_i hb
+          rw [Except.pure_eq_ok] at h
+          obtain ⟨i1, i2, t', i3, i4, i5, i6, i7⟩ := keep h.symm
+          refine ⟨i1, i2, t', i3, i4, i5, i6 ?_, i7⟩
           intro v hv
-          rcases inh_opt_iff.1 hv with rfl | hv
-          · exact InhX.optNull
-          · exact InhX.optSome (cv2 v hv)
-        · intro _ v hv; exact InhX.optSome (cv1 v hv)
+          subst hb
+          exact InhX.optSome ((he _ _ (cl.good _ hPoi) (cl.good _ hf) hb2 v).2 hv)
+        · rw [Except.pure_eq_ok] at h; subst h
+          have hPn : P (mergeNew c field oi) := closed_mergeNew cl hf hPoi
+          obtain ⟨cv1, cv2⟩ := covers_mergeNew (c := c) cl hs hf hPoi
+          refine ⟨inv.set ((cl.opt _).1 hPn), ?_, .opt (mergeNew c field oi), by simp [Fields.get?_set], ?_,
+            by simp, ?_, fun _ => Ty.optLike_opt⟩
+          · intro k hk
+            have : ¬ name = k := fun e => hk e.symm
+            simp [Fields.get?_set, this]
+          · intro orig' ho; cases ho
+            refine ⟨?_, fun _ => rfl, fun _ => Ty.optLike_opt⟩
+            intro v hv
+            rcases inh_opt_iff.1 hv with rfl | hv
+            · exact InhX.optNull
+            · exact InhX.optSome (cv2 v hv)
+          · intro v hv; exact InhX.optSome (cv1 v hv)
     | false =>
       rw [mergeOne_some_other hg hio, Except.bind_eq_ok] at h
       obtain ⟨b1, hb1, h⟩ := h
-      rw [Except.bind_eq_ok] at h
-      obtain ⟨b2, hb2, h⟩ := h
       split at h
       · rename_i hb
         rw [Except.pure_eq_ok] at h; subst h
-        refine ⟨inv, fun _ _ => rfl, _, hg, ?_, by simp, ?_⟩
-        · intro orig' ho; cases ho; exact ⟨Covers.refl, fun h => h⟩
-        · intro hfo v hv
-          have hb2' : b2 = false := by
-            cases field <;> simp_all [Ty.isOpt, pure, Except.pure]
-          subst hb2'
-          have : b1 = true := by simpa using hb
-          subst this
+        subst hb
+        obtain ⟨_, hol⟩ := EqEnv.eq_optLike hb1
+        refine ⟨inv, fun _ _ => rfl, _, hg, ?_, by simp, ?_, fun h => by rw [hol]; exact h⟩
+        · intro orig' ho; cases ho; exact ⟨Covers.refl, fun h => h, fun h => h⟩
+        · intro v hv
           exact (he _ _ (cl.good _ hPo) (cl.good _ hf) hb1 v).2 hv
-      · rw [Except.pure_eq_ok] at h; subst h
-        have hPn : P (mergeNew c field orig) := closed_mergeNew cl hf hPo
-        obtain ⟨cv1, cv2⟩ := covers_mergeNew (c := c) cl hs hf hPo
-        refine ⟨inv.set hPn, ?_, mergeNew c field orig, by simp [Fields.get?_set], ?_, by simp, ?_⟩
-        · intro k hk
-          have : ¬ name = k := fun e => hk e.symm
-          simp [Fields.get?_set, this]
-        · intro orig' ho; cases ho
-          exact ⟨cv2, fun h => by rw [hio] at h; simp at h⟩
-        · intro _; exact cv1
+      · rw [Except.bind_eq_ok] at h
+        obtain ⟨b2, hb2, h⟩ := h
+        split at h
+        · rename_i hb
+          rw [Except.pure_eq_ok] at h; subst h
+          subst hb
+          -- the incoming field is `Optional[T]` for the existing `T`: it replaces the existing one
+          obtain ⟨fi, rfl⟩ : ∃ fi, field = .opt fi := by
+            cases field <;> first | exact ⟨_, rfl⟩ | (simp [pure, Except.pure] at hb2)
+          have hPfi : P fi := (cl.opt _).2 hf
+          refine ⟨inv.set hf, ?_, .opt fi, by simp [Fields.get?_set], ?_, by simp, Covers.refl, fun h => h⟩
+          · intro k hk
+            have : ¬ name = k := fun e => hk e.symm
+            simp [Fields.get?_set, this]
+          · intro orig' ho; cases ho
+            refine ⟨?_, fun _ => rfl, fun _ => Ty.optLike_opt⟩
+            intro v hv
+            exact InhX.optSome ((he _ _ (cl.good _ hPo) (cl.good _ hPfi) hb2 v).1 hv)
+        · rw [Except.pure_eq_ok] at h; subst h
+          have hPn : P (mergeNew c field orig) := closed_mergeNew cl hf hPo
+          obtain ⟨cv1, cv2⟩ := covers_mergeNew (c := c) cl hs hf hPo
+          refine ⟨inv.set hPn, ?_, mergeNew c field orig, by simp [Fields.get?_set], ?_, by simp, cv1,
+            fun h => optLike_mergeNew (Or.inl h)⟩
+          · intro k hk
+            have : ¬ name = k := fun e => hk e.symm
+            simp [Fields.get?_set, this]
+          · intro orig' ho; cases ho
+            exact ⟨cv2, fun h => by rw [hio] at h; simp at h, fun h => optLike_mergeNew (Or.inr h)⟩
+
+/-- `InhF` with the test "this field may be absent" as a parameter -/
+def InhFG (ρ : Ty → Bool) (ov : Bool) (acc : Accepts) (g : ModelLookup) (fs : Fields)
+    (kvs : List (String × Json)) : Prop :=
+  (∀ kv ∈ kvs, ∃ t, Fields.get? fs kv.1 = some t ∧ InhX ov acc g t kv.2) ∧
+  (∀ k t, Fields.get? fs k = some t → ρ t = false → ∃ kv ∈ kvs, kv.1 = k)
+
+theorem inhFG_isOpt {fs : Fields} {kvs} : InhFG Ty.isOpt ov acc g fs kvs ↔ InhF ov acc g fs kvs := Iff.rfl
+
+/-- lax reading of a field dict: a field may be absent when its type is `Ty.optLike` -/
+abbrev InhFL (ov : Bool) (acc : Accepts) (g : ModelLookup) (fs : Fields) (kvs : List (String × Json)) : Prop :=
+  InhFG Ty.optLike ov acc g fs kvs
+
+theorem InhF.toLax {fs : Fields} {kvs} (h : InhF ov acc g fs kvs) : InhFL ov acc g fs kvs :=
+  ⟨h.1, fun k t hk hno => h.2 k t hk (Ty.isOpt_false_of_optLike hno)⟩
+
+theorem InhFL.toStrict {fs : Fields} {kvs} (hopt : ∀ f ∈ fs, f.2.optLike = true → f.2.isOpt = true)
+    (h : InhFL ov acc g fs kvs) : InhF ov acc g fs kvs := by
+  refine ⟨h.1, fun k t hk hno => h.2 k t hk ?_⟩
+  cases hl : t.optLike with
+  | false => rfl
+  | true => have := hopt (k, t) (Fields.mem_of_get? hk) hl; rw [hno] at this; cases this
 
 /-- the inner loop `for name, field in model.items()` -/
 theorem mergeFold_spec (cl : MergeClosed K P) (hs : HashSoundOn ov acc g (Ty.Good K))
@@ -230,24 +398,25 @@ theorem mergeFold_spec (cl : MergeClosed K P) (hs : HashSoundOn ov acc g (Ty.Goo
       FInv P F1 ∧
       (∀ k, k ∈ F1.map (·.1) ↔ k ∈ F.map (·.1) ∨ k ∈ m.map (·.1)) ∧
       (∀ k orig, Fields.get? F k = some orig → ∃ t1, Fields.get? F1 k = some t1 ∧
-        Covers ov acc g orig t1 ∧ (orig.isOpt = true → t1.isOpt = true)) ∧
+        Covers ov acc g orig t1 ∧ (orig.isOpt = true → t1.isOpt = true) ∧
+        (orig.optLike = true → t1.optLike = true)) ∧
       (first = false → ∀ k, Fields.get? F k = none → ∀ t1, Fields.get? F1 k = some t1 → t1.isOpt = true) ∧
-      ((∀ f ∈ m, f.2.isOpt = false) → ∀ k t0, Fields.get? m k = some t0 →
-        ∃ t1, Fields.get? F1 k = some t1 ∧ Covers ov acc g t0 t1) := by
+      (∀ k t0, Fields.get? m k = some t0 →
+        ∃ t1, Fields.get? F1 k = some t1 ∧ Covers ov acc g t0 t1 ∧ (t0.optLike = true → t1.optLike = true)) := by
   intro m
   induction m with
   | nil =>
     intro F F1 inv _ h
     simp only [List.foldlM_nil, Except.pure_eq_ok] at h
     subst h
-    exact ⟨inv, by simp, fun k orig ho => ⟨orig, ho, Covers.refl, fun h => h⟩,
-      fun _ k hk t1 ht => by rw [hk] at ht; simp at ht, fun _ k t0 hk => by simp at hk⟩
+    exact ⟨inv, by simp, fun k orig ho => ⟨orig, ho, Covers.refl, fun h => h, fun h => h⟩,
+      fun _ k hk t1 ht => by rw [hk] at ht; simp at ht, fun k t0 hk => by simp at hk⟩
   | cons kv m ih =>
     obtain ⟨name, field⟩ := kv
     intro F F1 inv hm h
     rw [List.foldlM_cons, Except.bind_eq_ok] at h
     obtain ⟨F', hF', h⟩ := h
-    obtain ⟨inv', hother, t', ht', hc1, hc2, hc3⟩ :=
+    obtain ⟨inv', hother, t', ht', hc1, hc2, hc3, hc4⟩ :=
       mergeOne_spec cl hs he inv (hm _ List.mem_cons_self) hF'
     obtain ⟨inv1, hkeys, hwid, hnew, hcov⟩ := ih F' F1 inv' (fun f hf => hm f (List.mem_cons_of_mem _ hf)) h
     have hkeys' : ∀ k, k ∈ F'.map (·.1) ↔ k = name ∨ k ∈ F.map (·.1) := by
@@ -267,26 +436,26 @@ theorem mergeFold_spec (cl : MergeClosed K P) (hs : HashSoundOn ov acc g (Ty.Goo
     · intro k orig ho
       by_cases hk : k = name
       · subst hk
-        obtain ⟨cv, hopt⟩ := hc1 orig ho
-        obtain ⟨t1, ht1, cv1, hopt1⟩ := hwid k t' ht'
-        exact ⟨t1, ht1, cv.trans cv1, fun h => hopt1 (hopt h)⟩
+        obtain ⟨cv, hopt, hol⟩ := hc1 orig ho
+        obtain ⟨t1, ht1, cv1, hopt1, hol1⟩ := hwid k t' ht'
+        exact ⟨t1, ht1, cv.trans cv1, fun h => hopt1 (hopt h), fun h => hol1 (hol h)⟩
       · exact hwid k orig (by rw [hother k hk]; exact ho)
     · intro hfirst k hk t1 ht1
       by_cases hkn : k = name
       · subst hkn
-        obtain ⟨t1', ht1', _, hopt1⟩ := hwid k t' ht'
+        obtain ⟨t1', ht1', _, hopt1, _⟩ := hwid k t' ht'
         rw [ht1] at ht1'; cases ht1'
         exact hopt1 (hc2 hk hfirst)
       · exact hnew hfirst k (by rw [hother k hkn]; exact hk) t1 ht1
-    · intro hno k t0 hk
+    · intro k t0 hk
       rw [Fields.get?_cons] at hk
       split at hk
       · rename_i hkn
         subst hkn
         cases hk
-        obtain ⟨t1, ht1, cv1, _⟩ := hwid name t' ht'
-        exact ⟨t1, ht1, (hc3 (hno _ List.mem_cons_self)).trans cv1⟩
-      · exact hcov (fun f hf => hno f (List.mem_cons_of_mem _ hf)) k t0 hk
+        obtain ⟨t1, ht1, cv1, _, hol1⟩ := hwid name t' ht'
+        exact ⟨t1, ht1, hc3.trans cv1, fun h => hol1 (hc4 h)⟩
+      · exact hcov k t0 hk
 
 theorem covers_inhF_lookup {fs : Fields} {kvs : List (String × Json)} (h : InhF ov acc g fs kvs)
     {k : String} (hk : ∃ kv ∈ kvs, kv.1 = k) : (Fields.get? fs k).isSome = true := by
@@ -301,7 +470,9 @@ theorem mergeStep_spec (cl : MergeClosed K P) (hs : HashSoundOn ov acc g (Ty.Goo
     (h : mergeStep c e first F m = .ok F2) :
     FInv P F2 ∧
     (first = false → ∀ kvs, InhF ov acc g F kvs → InhF ov acc g F2 kvs) ∧
-    ((∀ f ∈ m, f.2.isOpt = false) → ∀ kvs, InhF ov acc g m kvs → InhF ov acc g F2 kvs) := by
+    (first = false → ∀ kvs, InhFL ov acc g F kvs → InhFL ov acc g F2 kvs) ∧
+    ((∀ f ∈ m, f.2.isOpt = false) → ∀ kvs, InhF ov acc g m kvs → InhF ov acc g F2 kvs) ∧
+    (∀ kvs, InhFL ov acc g m kvs → InhFL ov acc g F2 kvs) := by
   unfold mergeStep at h
   simp only at h
   rw [Except.bind_eq_ok] at h
@@ -334,104 +505,199 @@ theorem mergeStep_spec (cl : MergeClosed K P) (hs : HashSoundOn ov acc g (Ty.Goo
     rcases hwrap k t with e | e <;> rw [e]
     · exact Covers.refl
     · exact Covers.toOpt
-  refine ⟨⟨by rw [hkeys2]; exact inv1.1, ?_⟩, ?_, ?_⟩
+  -- a key that is not in this model is optional afterwards
+  have hmissing : ∀ k t1, Fields.get? F1 k = some t1 → k ∉ m.map (·.1) → (wrap k t1).isOpt = true := by
+    intro k t1 h1 hmk
+    have hk1 : k ∈ F1.map (·.1) := by rw [← Fields.get?_isSome_iff, h1]; rfl
+    have hbefore : k ∈ F.map (·.1) := by
+      rcases (hkeys k).1 hk1 with h | h
+      · exact h
+      · exact absurd h hmk
+    have hc1 : F.keys.contains k = true := by simpa [Fields.keys] using hbefore
+    have hc2 : m.has k = false := by
+      cases hh : m.has k with
+      | false => rfl
+      | true => exact absurd (Fields.has_iff.1 hh) hmk
+    cases ho : t1.isOpt with
+    | true =>
+      have hw : wrap k t1 = t1 := by simp only [wrap, hc1, hc2, ho]; rfl
+      rw [hw, ho]
+    | false =>
+      have hw : wrap k t1 = .opt t1 := by simp only [wrap, hc1, hc2, ho]; rfl
+      rw [hw]; rfl
+  -- the two inclusions, for any "may be absent" test `ρ` that holds of every `DOptional`
+  have coreB : ∀ ρ : Ty → Bool, (∀ t, t.isOpt = true → ρ t = true) →
+      (∀ k orig, Fields.get? F k = some orig → ∃ t1, Fields.get? F1 k = some t1 ∧
+        Covers ov acc g orig t1 ∧ (ρ orig = true → ρ t1 = true)) →
+      first = false → ∀ kvs, InhFG ρ ov acc g F kvs → InhFG ρ ov acc g F2 kvs := by
+    intro ρ hρ hw hfirst kvs hin
+    refine ⟨?_, ?_⟩
+    · intro kv hkv
+      obtain ⟨t, ht, hi⟩ := hin.1 kv hkv
+      obtain ⟨t1, ht1, cv, _⟩ := hw _ _ ht
+      exact ⟨wrap kv.1 t1, by rw [hget, ht1]; rfl, hcovwrap _ _ _ (cv _ hi)⟩
+    · intro k t2 hk hno
+      obtain ⟨t1, h1, rfl⟩ := hget' k t2 hk
+      have ht1 : ρ t1 = false := by
+        rcases hwrap k t1 with e | e <;> rw [e] at hno
+        · exact hno
+        · rw [hρ _ rfl] at hno; cases hno
+      cases h0 : Fields.get? F k with
+      | none =>
+        have := hρ _ (hnew hfirst k h0 t1 h1)
+        rw [ht1] at this; cases this
+      | some orig =>
+        obtain ⟨t1', ht1', _, hopt⟩ := hw k orig h0
+        rw [h1] at ht1'; cases ht1'
+        have horig : ρ orig = false := by
+          cases ho : ρ orig with
+          | false => rfl
+          | true => have := hopt ho; rw [ht1] at this; cases this
+        exact hin.2 k orig h0 horig
+  have coreA : ∀ ρ : Ty → Bool, (∀ t, t.isOpt = true → ρ t = true) →
+      (∀ k t0, Fields.get? m k = some t0 → ∃ t1, Fields.get? F1 k = some t1 ∧
+        Covers ov acc g t0 t1 ∧ (ρ t0 = true → ρ t1 = true)) →
+      ∀ kvs, InhFG ρ ov acc g m kvs → InhFG ρ ov acc g F2 kvs := by
+    intro ρ hρ hc kvs hin
+    refine ⟨?_, ?_⟩
+    · intro kv hkv
+      obtain ⟨t0, ht0, hi⟩ := hin.1 kv hkv
+      obtain ⟨t1, ht1, cv, _⟩ := hc _ _ ht0
+      exact ⟨wrap kv.1 t1, by rw [hget, ht1]; rfl, hcovwrap _ _ _ (cv _ hi)⟩
+    · intro k t2 hk hno2
+      obtain ⟨t1, h1, rfl⟩ := hget' k t2 hk
+      have ht1 : ρ t1 = false := by
+        rcases hwrap k t1 with e | e <;> rw [e] at hno2
+        · exact hno2
+        · rw [hρ _ rfl] at hno2; cases hno2
+      by_cases hmk : k ∈ m.map (·.1)
+      · rw [← Fields.get?_isSome_iff] at hmk
+        cases h0 : Fields.get? m k with
+        | none => rw [h0] at hmk; simp at hmk
+        | some t0 =>
+          obtain ⟨t1', ht1', _, hopt⟩ := hc k t0 h0
+          rw [h1] at ht1'; cases ht1'
+          have h00 : ρ t0 = false := by
+            cases ho : ρ t0 with
+            | false => rfl
+            | true => have := hopt ho; rw [ht1] at this; cases this
+          exact hin.2 k t0 h0 h00
+      · -- not a key of this model: it was there before, so the final pass made it optional
+        have := hρ _ (hmissing k t1 h1 hmk)
+        rw [hno2] at this; cases this
+  refine ⟨⟨by rw [hkeys2]; exact inv1.1, ?_⟩, ?_, ?_, ?_, ?_⟩
   · intro k t hk
     obtain ⟨t1, h1, rfl⟩ := hget' k t hk
     have := inv1.2 k t1 h1
     rcases hwrap k t1 with e | e <;> rw [e]
     · exact this
     · exact (cl.opt _).1 this
-  · intro hfirst kvs hin
-    refine ⟨?_, ?_⟩
-    · intro kv hkv
-      obtain ⟨t, ht, hi⟩ := hin.1 kv hkv
-      obtain ⟨t1, ht1, cv, _⟩ := hwid _ _ ht
-      exact ⟨wrap kv.1 t1, by rw [hget, ht1]; rfl, hcovwrap _ _ _ (cv _ hi)⟩
-    · intro k t2 hk hno
-      obtain ⟨t1, h1, rfl⟩ := hget' k t2 hk
-      have ht1 : t1.isOpt = false := by
-        rcases hwrap k t1 with e | e <;> rw [e] at hno
-        · exact hno
-        · simp [Ty.isOpt] at hno
-      cases h0 : Fields.get? F k with
-      | none =>
-        have := hnew hfirst k h0 t1 h1
-        rw [ht1] at this; simp at this
-      | some orig =>
-        obtain ⟨t1', ht1', _, hopt⟩ := hwid k orig h0
-        rw [h1] at ht1'; cases ht1'
-        have horig : orig.isOpt = false := by
-          cases ho : orig.isOpt with
-          | false => rfl
-          | true => have := hopt ho; rw [ht1] at this; simp at this
-        exact hin.2 k orig h0 horig
-  · intro hno kvs hin
-    have hpresent : ∀ k, k ∈ m.map (·.1) → ∃ kv ∈ kvs, kv.1 = k := by
-      intro k hk
-      rw [← Fields.get?_isSome_iff] at hk
-      cases h0 : Fields.get? m k with
-      | none => rw [h0] at hk; simp at hk
-      | some t0 => exact hin.2 k t0 h0 (hno _ (Fields.mem_of_get? h0))
-    refine ⟨?_, ?_⟩
-    · intro kv hkv
-      obtain ⟨t0, ht0, hi⟩ := hin.1 kv hkv
-      obtain ⟨t1, ht1, cv⟩ := hcov hno _ _ ht0
-      exact ⟨wrap kv.1 t1, by rw [hget, ht1]; rfl, hcovwrap _ _ _ (cv _ hi)⟩
-    · intro k t2 hk hno2
-      obtain ⟨t1, h1, rfl⟩ := hget' k t2 hk
-      by_cases hmk : k ∈ m.map (·.1)
-      · exact hpresent k hmk
-      · -- not a key of this model: it was there before, so the final pass made it optional
-        exfalso
-        have hk1 : k ∈ F1.map (·.1) := by rw [← Fields.get?_isSome_iff, h1]; rfl
-        have hbefore : k ∈ F.map (·.1) := by
-          rcases (hkeys k).1 hk1 with h | h
-          · exact h
-          · exact absurd h hmk
-        have hc1 : F.keys.contains k = true := by simpa [Fields.keys] using hbefore
-        have hc2 : m.has k = false := by
-          cases hh : m.has k with
-          | false => rfl
-          | true => exact absurd (Fields.has_iff.1 hh) hmk
-        cases ho : t1.isOpt with
-        | true =>
-          have hw : wrap k t1 = t1 := by simp only [wrap, hc1, hc2, ho]; rfl
-          rw [hw, ho] at hno2; simp at hno2
-        | false =>
-          have hw : wrap k t1 = .opt t1 := by simp only [wrap, hc1, hc2, ho]; rfl
-          rw [hw] at hno2; simp [Ty.isOpt] at hno2
+  · exact coreB Ty.isOpt (fun _ h => h) (fun k orig ho => by
+      obtain ⟨t1, a, b, c, _⟩ := hwid k orig ho; exact ⟨t1, a, b, c⟩)
+  · exact coreB Ty.optLike (fun _ h => Ty.optLike_of_isOpt h) (fun k orig ho => by
+      obtain ⟨t1, a, b, _, d⟩ := hwid k orig ho; exact ⟨t1, a, b, d⟩)
+  · intro hno
+    exact coreA Ty.isOpt (fun _ h => h) (fun k t0 h0 => by
+      obtain ⟨t1, a, b, _⟩ := hcov k t0 h0
+      refine ⟨t1, a, b, fun h => ?_⟩
+      rw [hno _ (Fields.mem_of_get? h0)] at h; cases h)
+  · exact coreA Ty.optLike (fun _ h => Ty.optLike_of_isOpt h) hcov
 
 /-- the outer loop -/
 theorem mergeGo_spec (cl : MergeClosed K P) (hs : HashSoundOn ov acc g (Ty.Good K))
     {e : EqEnv} (he : EqSoundOn ov acc g e (Ty.Good K)) {c : LitCfg} :
     ∀ (sets : List Fields) (first : Bool) (F F' : Fields), FInv P F →
-      (∀ m ∈ sets, ∀ f ∈ m, P f.2 ∧ f.2.isOpt = false) →
+      (∀ m ∈ sets, ∀ f ∈ m, P f.2) →
       mergeFieldSets.go c e first F sets = .ok F' →
       FInv P F' ∧
       (first = false → ∀ kvs, InhF ov acc g F kvs → InhF ov acc g F' kvs) ∧
-      (∀ m ∈ sets, ∀ kvs, InhF ov acc g m kvs → InhF ov acc g F' kvs) := by
+      (first = false → ∀ kvs, InhFL ov acc g F kvs → InhFL ov acc g F' kvs) ∧
+      ((∀ m ∈ sets, ∀ f ∈ m, f.2.isOpt = false) →
+        ∀ m ∈ sets, ∀ kvs, InhF ov acc g m kvs → InhF ov acc g F' kvs) ∧
+      (∀ m ∈ sets, ∀ kvs, InhFL ov acc g m kvs → InhFL ov acc g F' kvs) := by
   intro sets
   induction sets with
   | nil =>
     intro first F F' inv _ h
     simp only [mergeFieldSets.go, Except.pure_eq_ok] at h
     subst h
-    exact ⟨inv, fun _ _ h => h, by simp⟩
+    exact ⟨inv, fun _ _ h => h, fun _ _ h => h, by simp, by simp⟩
   | cons m ms ih =>
     intro first F F' inv hsets h
     rw [mergeFieldSets.go, Except.bind_eq_ok] at h
     obtain ⟨F1, hF1, h⟩ := h
     have hm := hsets m List.mem_cons_self
-    obtain ⟨inv1, hB, hA⟩ := mergeStep_spec cl hs he inv (fun f hf => (hm f hf).1) hF1
-    obtain ⟨inv', hB', hA'⟩ := ih false F1 F' inv1 (fun m' hm' => hsets m' (List.mem_cons_of_mem _ hm')) h
-    refine ⟨inv', ?_, ?_⟩
+    obtain ⟨inv1, hB, hBL, hA, hAL⟩ := mergeStep_spec cl hs he inv hm hF1
+    obtain ⟨inv', hB', hBL', hA', hAL'⟩ :=
+      ih false F1 F' inv1 (fun m' hm' => hsets m' (List.mem_cons_of_mem _ hm')) h
+    refine ⟨inv', ?_, ?_, ?_, ?_⟩
     · intro hfirst kvs hin
       exact hB' rfl kvs (hB hfirst kvs hin)
+    · intro hfirst kvs hin
+      exact hBL' rfl kvs (hBL hfirst kvs hin)
+    · intro hno m' hm' kvs hin
+      rcases List.mem_cons.1 hm' with e | hm'
+      · subst e
+        exact hB' rfl kvs (hA (hno _ List.mem_cons_self) kvs hin)
+      · exact hA' (fun m'' hm'' => hno m'' (List.mem_cons_of_mem _ hm'')) m' hm' kvs hin
     · intro m' hm' kvs hin
       rcases List.mem_cons.1 hm' with e | hm'
       · subst e
-        exact hB' rfl kvs (hA (fun f hf => (hm f hf).2) kvs hin)
-      · exact hA' m' hm' kvs hin
+        exact hBL' rfl kvs (hAL kvs hin)
+      · exact hAL' m' hm' kvs hin
+
+/-- lax reading of "object `kvs` lies in field dict `fs`": as `InhFieldsX`, but a field may also be absent
+    when its type is a `DUnion` with a `DOptional` member (`Ty.optLike`) -/
+def InhFieldsLX (ov : Bool) (acc : Accepts) (g : ModelLookup) (fs : Fields) (kvs : List (String × Json)) : Prop :=
+  (∀ kv ∈ kvs, (Fields.get? fs kv.1).isSome = true) ∧
+  (∀ kv ∈ kvs, ∀ t, Fields.get? fs kv.1 = some t → InhX ov acc g t kv.2) ∧
+  (∀ ft ∈ fs, ft.2.optLike = false → ∃ kv ∈ kvs, kv.1 = ft.1)
+
+theorem InhFieldsX.toLax {fs : Fields} {kvs} (h : InhFieldsX ov acc g fs kvs) : InhFieldsLX ov acc g fs kvs :=
+  ⟨h.1, h.2.1, fun ft hft hno => h.2.2 ft hft (Ty.isOpt_false_of_optLike hno)⟩
+
+/-- the lax and the strict reading agree on a field dict without "`DUnion` with a `DOptional` member" fields -/
+theorem InhFieldsLX.toStrict {fs : Fields} {kvs} (hopt : ∀ f ∈ fs, f.2.optLike = true → f.2.isOpt = true)
+    (h : InhFieldsLX ov acc g fs kvs) : InhFieldsX ov acc g fs kvs := by
+  refine ⟨h.1, h.2.1, fun ft hft hno => h.2.2 ft hft ?_⟩
+  cases hl : ft.2.optLike with
+  | false => rfl
+  | true => have := hopt ft hft hl; rw [hno] at this; cases this
+
+theorem InhFieldsLX.toInhFL {fs : Fields} {kvs} (h : InhFieldsLX ov acc g fs kvs) : InhFL ov acc g fs kvs := by
+  obtain ⟨h1, h2, h3⟩ := h
+  refine ⟨?_, ?_⟩
+  · intro kv hkv
+    have := h1 kv hkv
+    cases hg : Fields.get? fs kv.1 with
+    | none => simp [hg] at this
+    | some t => exact ⟨t, rfl, h2 kv hkv t hg⟩
+  · intro k t hg hno
+    exact h3 (k, t) (Fields.mem_of_get? hg) hno
+
+theorem InhFL.toInhFieldsLX {fs : Fields} {kvs} (nd : (fs.map (·.1)).Nodup) (h : InhFL ov acc g fs kvs) :
+    InhFieldsLX ov acc g fs kvs := by
+  obtain ⟨h1, h2⟩ := h
+  refine ⟨?_, ?_, ?_⟩
+  · intro kv hkv; obtain ⟨t, ht, _⟩ := h1 kv hkv; simp [ht]
+  · intro kv hkv t ht; obtain ⟨t', ht', hi⟩ := h1 kv hkv
+    rw [ht] at ht'; cases ht'; exact hi
+  · intro ft hft hno
+    exact h2 ft.1 ft.2 (Fields.get?_of_mem nd hft) hno
+
+/-- `merge_field_sets` for input sets whose fields lie in `P` (a `DOptional` field is allowed): every object
+    of an input set lies in the merge, under the lax reading of required fields -/
+theorem mergeFieldSets_spec_lax (cl : MergeClosed K P) (hs : HashSoundOn ov acc g (Ty.Good K))
+    {e : EqEnv} (he : EqSoundOn ov acc g e (Ty.Good K)) {c : LitCfg} {sets : List Fields} {F : Fields}
+    (hsets : ∀ m ∈ sets, ∀ f ∈ m, P f.2)
+    (h : mergeFieldSets c e sets = .ok F) :
+    (F.map (·.1)).Nodup ∧ (∀ f ∈ F, P f.2) ∧
+    ∀ m ∈ sets, ∀ kvs, InhFieldsLX ov acc g m kvs → InhFieldsLX ov acc g F kvs := by
+  unfold mergeFieldSets at h
+  obtain ⟨inv, _, _, _, hAL⟩ := mergeGo_spec cl hs he sets true [] F ⟨by simp, by simp⟩ hsets h
+  refine ⟨inv.1, fun f hf => inv.2 f.1 f.2 (Fields.get?_of_mem inv.1 hf), ?_⟩
+  intro m hm kvs hin
+  exact (hAL m hm kvs hin.toInhFL).toInhFieldsLX inv.1
 
 /-- `merge_field_sets` for input sets whose fields lie in `P` and are not `DOptional` -/
 theorem mergeFieldSets_spec (cl : MergeClosed K P) (hs : HashSoundOn ov acc g (Ty.Good K))
@@ -441,10 +707,11 @@ theorem mergeFieldSets_spec (cl : MergeClosed K P) (hs : HashSoundOn ov acc g (T
     (F.map (·.1)).Nodup ∧ (∀ f ∈ F, P f.2) ∧
     ∀ m ∈ sets, ∀ kvs, InhFieldsX ov acc g m kvs → InhFieldsX ov acc g F kvs := by
   unfold mergeFieldSets at h
-  obtain ⟨inv, _, hA⟩ := mergeGo_spec cl hs he sets true [] F ⟨by simp, by simp⟩ hsets h
+  obtain ⟨inv, _, _, hA, _⟩ := mergeGo_spec cl hs he sets true [] F ⟨by simp, by simp⟩
+    (fun m hm f hf => (hsets m hm f hf).1) h
   refine ⟨inv.1, fun f hf => inv.2 f.1 f.2 (Fields.get?_of_mem inv.1 hf), ?_⟩
   intro m hm kvs hin
-  exact (hA m hm kvs hin.toInhF).toInhFields inv.1
+  exact (hA (fun m hm f hf => (hsets m hm f hf).2) m hm kvs hin.toInhF).toInhFields inv.1
 
 end
 
